@@ -324,6 +324,7 @@ def h_bfs(e0: bool, e1: bool, e2: bool, e3: bool, e4: bool, e5: bool, e6: bool, 
     """
     pre: M.bits_zero_beyond([e0, e1, e2, e3, e4, e5, e6, e7, e8, e9, e10, e11], N * (N - 1))
     pre: 0 <= src < N
+    pre: B.get("src") is None or src == B.get("src")
     post: _ == True
     """
     g = _graph_from_bits([e0, e1, e2, e3, e4, e5, e6, e7, e8, e9, e10, e11], N)
